@@ -73,7 +73,13 @@ class Rewriter:
             if k != "for":
                 return False
             st = s.get("step")
-            while st is not None and st[0] in ("un", "par"):
+            while st is not None and st[0] in ("un", "par", "call"):
+                if st[0] == "call":
+                    st = st[2][0] if st[1] == "StepOf%" else None
+                    if st is None:
+                        self.skipped += 1
+                        return False
+                    continue
                 st = st[2] if st[0] == "un" else st[1]
             if st is not None and not (st[0] == "lit" or (st[0] == "var" and st[1].startswith("ST"))):
                 self.skipped += 1
